@@ -33,6 +33,7 @@ def run(chk):
     precede.run(chk, rules["must_precede"])
     # C14.f every rejected input reaches the error handler
     errreport.run(chk)
+    errreport.run_code_guard(chk)
     # C14.d constant tables are never read out of bounds
     subscript.run_units(chk)
     return chk.finish(
